@@ -341,17 +341,26 @@ func copyDenseIter(dst, src DenseTensor, diter, siter Iterator) (int, error) {
 		siter = FlatIteratorFromDense(src)
 	}
 
-	// if it's a masked tensor, we copy the mask as well
+	// if it's a masked tensor, we copy the mask as well - element by element along the
+	// same iterators as the data: the mask of a view is laid out like its storage window
 	if ms, ok := src.(MaskedTensor); ok && ms.IsMasked() {
 		if md, ok := dst.(MaskedTensor); ok {
 			dmask := md.Mask()
 			smask := ms.Mask()
-			if cap(dmask) < len(smask) {
-				dmask = make([]bool, len(smask))
-				copy(dmask, md.Mask())
+			if len(dmask) != dst.len() {
+				dmask = make([]bool, dst.len())
 				md.SetMask(dmask)
 			}
-			copy(dmask, smask)
+			for {
+				i, derr := diter.Next()
+				j, serr := siter.Next()
+				if derr != nil || serr != nil {
+					break
+				}
+				dmask[i] = smask[j]
+			}
+			diter.Reset()
+			siter.Reset()
 		}
 	}
 	return storage.CopyIter(dst.rtype(), dst.hdr(), src.hdr(), diter, siter), nil
